@@ -34,6 +34,15 @@ def remove_unused_self_cls(source: str) -> str:
         for node in core.walk(root, ast.Attribute(value=ast.Call(func=ast.Name(id="super"))))
     )
 
+    # self.name() may reach the method of another class (a subclass), that needs the instance.
+    instance_method_names = {
+        funcdef.name
+        for classdef in parsing.iter_classdefs(root)
+        for funcdef in parsing.iter_funcdefs(classdef)
+        if not any(_decorators_of_type(funcdef, "staticmethod"))
+        and not any(_decorators_of_type(funcdef, "classmethod"))
+    }
+
     for classdef in parsing.iter_classdefs(root):
         # Methods that the class body reads by name are handed to something, like property(getter)
         read_in_class_body = {
@@ -47,7 +56,7 @@ def remove_unused_self_cls(source: str) -> str:
             for funcdef in parsing.iter_funcdefs(classdef)
             if any(_decorators_of_type(funcdef, "staticmethod"))
             or any(_decorators_of_type(funcdef, "classmethod"))
-        }
+        } - instance_method_names
         for funcdef in parsing.iter_funcdefs(classdef):
             arguments = funcdef.args.posonlyargs + funcdef.args.args
             if not arguments:
